@@ -192,6 +192,7 @@ func init() {
 }
 
 type c10Prepared struct {
+	specRef *compiled
 	c    c10Case
 	flat *compiled
 	spec *compiled
@@ -202,6 +203,7 @@ func c10Prepare(c c10Case) *c10Prepared {
 	p := &c10Prepared{c: c, flat: prepareImpl(c.Flat), spec: prepareImpl(c.Spec)}
 	if c.Alt != "" {
 		p.alt = prepare(c.Alt)
+		p.specRef = prepare(c.Spec)
 	}
 	return p
 }
@@ -219,6 +221,21 @@ func (p *c10Prepared) check(r *core.Run, d doc) *core.Violation {
 			Point:    map[string]any{"kind": p.c.Kind, "flat": p.c.Flat, "spec": p.c.Spec, "alt": p.c.Alt, "ops": p.c.Ops, "doc": d.Text, "expr": p.c.Flat},
 			Expected: "the outcome of the specified grouping: " + s.Short(),
 			Actual:   f.Short(),
+		}
+	}
+	if p.specRef != nil {
+		// the fully parenthesised spelling means what its parentheses say (a rewrite that treats both spellings alike
+		// is invisible to the comparison above)
+		if want := p.specRef.refEval(d.Norm); want.U == "" {
+			if k := ref.Diff(s, want); k != "" {
+				return &core.Violation{
+					Sig:      "C10/parenthesised-grouping/" + k + "/" + p.c.Ops,
+					Desc:     fmt.Sprintf("Search(%q, %s)", p.c.Spec, d.Text),
+					Point:    map[string]any{"kind": p.c.Kind, "flat": p.c.Flat, "spec": p.c.Spec, "alt": p.c.Alt, "ops": p.c.Ops, "doc": d.Text, "expr": p.c.Spec},
+					Expected: want.String(),
+					Actual:   s.Short(),
+				}
+			}
 		}
 	}
 	if p.alt != nil {
